@@ -429,6 +429,34 @@ def open_file_facts(tools):
     ]
 
 
+def detect_facts(prep):
+    """detect_partitions: the loop over sh.fat_types that Prep/Detect.v follows"""
+    f = find_func(prep.body, 'detect_partitions')
+    loop = None
+    for n in ast.walk(f):
+        if isinstance(n, ast.For) and ast.unparse(n.iter) == 'fat_types(img)':
+            loop = n
+    if loop is None:
+        raise TranslateError('detect_partitions: no loop over fat_types(img)')
+    class NoLog(ast.NodeTransformer):
+        def visit_Expr(self, node):
+            return None if isinstance(node.value, ast.Call) and 'logger.' in ast.unparse(node.value.func) else node
+    body = '\n'.join(ast.unparse(NoLog().visit(x)) for x in loop.body)
+    want = ("if fat_type.startswith('fat') and conf.boot_partition is None:\n    conf.boot_partition = num\n"
+            "elif fat_type == 'notfat' and conf.root_partition is None:\n    conf.root_partition = num\n"
+            "if conf.boot_partition is not None:\n    if conf.root_partition is not None:\n        break")
+    tail = ast.unparse(f)
+    errs = ("if conf.boot_partition is None:\n        raise ValueError" in tail and "if conf.root_partition is None:\n        raise ValueError" in tail) or \
+           ("if conf.boot_partition is None:\n    raise ValueError" in tail and "if conf.root_partition is None:\n    raise ValueError" in tail)
+    sh = parse('sh.py')
+    ft = ast.unparse(find_func(sh.body, 'fat_types'))
+    kinds = ("yield (num, fs.fat_type)" in ft and "yield (num, 'maybefat' if part.type in fat_types else 'notfat')" in ft
+             and "for num, part in disk.partitions.items()" in ft)
+    return [f'Definition detect_loop_standard : bool := {coq_bool(body == want and ast.unparse(loop.target) == "(num, fat_type)")}.',
+            f'Definition detect_errors_standard : bool := {coq_bool(errs)}.',
+            f'Definition fat_types_kinds_standard : bool := {coq_bool(kinds)}.']
+
+
 def emit():
     prep = parse('prep.py')
     config = parse('config.py')
@@ -441,4 +469,5 @@ def emit():
     lines += serial_facts(config)
     lines += board_facts(config, server)
     lines += open_file_facts(tools)
+    lines += detect_facts(prep)
     return '\n'.join(lines) + '\n'
